@@ -41,8 +41,14 @@ def c01(D, h):
         bad.append('top-level ids %s, expected %s' % (sorted(tops, key=str), sorted(want_tops, key=str)))
     seen = collections.Counter()
     for tid, top in tops.items():
-        m = sorted(x.unique_id for x in top.get_all_descendant_genes())
+        lst_ = top.get_all_descendant_genes()
+        m = sorted(x.unique_id for x in lst_)
         seen.update(m)
+        # the list handed out is the caller's: taking the query gene out of it, or pooling it with another list, does not
+        # change the family (r9-C01a)
+        spoil(lst_)
+        if sorted(x.unique_id for x in top.get_all_descendant_genes()) != m:
+            bad.append('members of %s change after the caller modified the list returned by get_all_descendant_genes()' % tid)
         if tid in want_tops and m != want_tops[tid]:
             bad.append('members of %s: %s, expected %s' % (tid, m, want_tops[tid]))
     for g, c in seen.items():
@@ -559,6 +565,31 @@ def c16(D, h):
             if any(c > 1 for c in seen.values()):
                 bad.append('ancestral clustering at %s not disjoint' % taxS(p))
     return bad
+
+def c16_views(h):
+    """the four views of every HOG describe the subtree its children links span (used after an edit through the public API)"""
+    bad = []
+    for tid, top in h.get_dict_top_level_hogs().items():
+        for n in all_nodes(top):
+            if not isinstance(n, ag.HOG):
+                continue
+            sub_nodes = list(all_nodes(n))
+            dg = n.get_all_descendant_genes()
+            if collections.Counter(map(id, dg)) != collections.Counter(id(x) for x in sub_nodes if isinstance(x, ag.Gene)):
+                bad.append('descendant genes of %s' % nodekey(n))
+            bysp = n.get_all_descendant_genes_clustered_by_species()
+            flat = [x for v in bysp.values() for x in v]
+            if collections.Counter(map(id, flat)) != collections.Counter(map(id, dg)) or any(x.genome is not sp for sp, v in bysp.items() for x in v):
+                bad.append('per-species clustering of %s' % nodekey(n))
+            dh = n.get_all_descendant_hogs()
+            if collections.Counter(map(id, dh)) != collections.Counter(id(x) for x in sub_nodes if isinstance(x, ag.HOG)):
+                bad.append('descendant hogs of %s' % nodekey(n))
+            lv = n.get_all_descendant_hog_levels()
+            if collections.Counter(map(id, lv)) != collections.Counter(id(x.genome) for x in dh):
+                bad.append('descendant levels of %s' % nodekey(n))
+    # (the ancestral clustering of a genome is a documented lazy attribute of the unchanged code, computed once: it is not
+    # part of this re-check)
+    return bad[:6]
 
 def c16_atlevel(h, member, genome):
     """expected result of member.get_at_level(genome) from the family's nodes"""
